@@ -20,3 +20,22 @@ impl Partition {
         self.add_persisted_segment(start_offset)
     }
 }
+
+// ---- link pass 2 (agent l2D): Topic::get_max_topic_size / Topic::get_message_expiry as units catalogue_maps and runtime_more assume them.
+// There the verdict and the values are UNINTERPRETED functions of (request, config) over an opaque SystemConfig (`limit_ok`, `limit_value`,
+// `expiry_value`); the link gives them their INTERPRETATION: what this unit proves of the real functions ([C15.valid.*], [C14.create.resolve]).
+pub open spec fn limit_ok(m: MaxTopicSize, c: &SystemConfig) -> bool { !limit_rejected(m, c) }
+pub open spec fn limit_value(m: MaxTopicSize, c: &SystemConfig) -> MaxTopicSize { limit_resolved(m, c) }
+pub open spec fn expiry_value(e: IggyExpiry, c: &SystemConfig) -> IggyExpiry { expiry_resolved(e, c) }
+impl Topic {
+    // copied from units/catalogue_maps/prelude.rs, stub `Topic::get_max_topic_size` (units/runtime_more/prelude.rs holds the same text)
+    // label: C15.link.catalogue_maps.get_max_topic_size
+    pub fn link_catalogue_maps_get_max_topic_size(max_topic_size: MaxTopicSize, config: &SystemConfig) -> (r: Result<MaxTopicSize, IggyErr>)
+        ensures r is Ok <==> limit_ok(max_topic_size, config), r matches Ok(v) ==> v == limit_value(max_topic_size, config),
+    { Topic::get_max_topic_size(max_topic_size, config) }
+    // copied from units/catalogue_maps/prelude.rs, stub `Topic::get_message_expiry` (units/runtime_more/prelude.rs holds the same text)
+    // label: C14.link.catalogue_maps.get_message_expiry
+    pub fn link_catalogue_maps_get_message_expiry(message_expiry: IggyExpiry, config: &SystemConfig) -> (r: IggyExpiry)
+        ensures r == expiry_value(message_expiry, config),
+    { Topic::get_message_expiry(message_expiry, config) }
+}
